@@ -150,10 +150,52 @@ func (c *Ctx) VerifiedBeforeSuccess(prop string) {
 			recvHdr = b
 		}
 	}
-	if recvHdr == nil {
+	// the iteration of the reply loop: from where a reply is in hand to where the next one is taken; the edge on which the
+	// collection is complete
+	var iterFrom an.Point
+	var iterNext func(ssa.Instruction) bool
+	exitEdge := func(b *ssa.BasicBlock, i int) bool { return recvHdr != nil && b == recvHdr && i == 1 }
+	var replyPos ssa.Instruction
+	if recvHdr != nil {
+		iterFrom = an.Point{Block: recvHdr.Succs[0], Idx: 0}
+		first := recvHdr.Instrs[0]
+		iterNext = func(i ssa.Instruction) bool { return i == first }
+		replyPos = first
+	} else {
+		// `for range len(participants) { reply := <-ch; ... }`: a counted loop with one plain receive per iteration
+		isRecv := func(i ssa.Instruction) bool {
+			u, ok := i.(*ssa.UnOp)
+			return ok && u.Op == token.ARROW && !u.CommaOk
+		}
+		for _, l := range FindRotLoops(D) {
+			var recv ssa.Instruction
+			nrecv := 0
+			for b := range l.Body {
+				for _, i := range b.Instrs {
+					if isRecv(i) {
+						recv = i
+						nrecv++
+					}
+				}
+			}
+			if nrecv != 1 {
+				continue
+			}
+			latchIf := l.Latch.Instrs[len(l.Latch.Instrs)-1]
+			// every iteration receives
+			if x, _ := an.Cut(an.CutQuery{From: an.Point{Block: l.Head, Idx: 0}, Target: func(i ssa.Instruction) bool { return i == latchIf }, AcceptInstr: func(i ssa.Instruction) bool { return i == recv }}); x != nil {
+				continue
+			}
+			iterFrom = an.After(recv)
+			iterNext = func(i ssa.Instruction) bool { return i == latchIf }
+			latch := l.Latch
+			exitEdge = func(b *ssa.BasicBlock, i int) bool { return b == latch && i == 1 }
+			replyPos = recv
+		}
+	}
+	if iterNext == nil {
 		c.R.Unknown(rule, Fn(D)+":replies", c.P.FuncPos(D), "no loop receiving the commit replies found")
 	} else {
-		body := recvHdr.Succs[0]
 		checks := []struct {
 			name string
 			acc  func(a *an.Atom) bool
@@ -180,12 +222,12 @@ func (c *Ctx) VerifiedBeforeSuccess(prop string) {
 		for _, ck := range checks {
 			ck := ck
 			// (the tests may sit in a validation method of the reply: `if err := reply.check(); err != nil { return }`)
-			x, path := an.Cut(an.CutQuery{From: an.Point{Block: body, Idx: 0}, Target: func(i ssa.Instruction) bool { return i == recvHdr.Instrs[0] },
+			x, path := an.Cut(an.CutQuery{From: iterFrom, Target: iterNext,
 				AcceptEdge: c.WithSummaries(func(a *an.Atom, _ Subst) bool { return ck.acc(a) })})
 			if x != nil {
-				c.R.Fail(rule, Fn(D)+":"+ck.name, c.Pos(recvHdr.Instrs[0]), "the driver goes on to the next commit reply without ["+ck.name+"]", "every reply: error-free, key and signature present", an.PathString(c.Pos, path))
+				c.R.Fail(rule, Fn(D)+":"+ck.name, c.Pos(replyPos), "the driver goes on to the next commit reply without ["+ck.name+"]", "every reply: error-free, key and signature present", an.PathString(c.Pos, path))
 			} else {
-				c.R.OK(rule, Fn(D)+":"+ck.name, c.Pos(recvHdr.Instrs[0]), "each reply is accepted only past ["+ck.name+"]")
+				c.R.OK(rule, Fn(D)+":"+ck.name, c.Pos(replyPos), "each reply is accepted only past ["+ck.name+"]")
 			}
 		}
 	}
@@ -200,7 +242,7 @@ func (c *Ctx) VerifiedBeforeSuccess(prop string) {
 	c.R.Floor(rule, "success returns of the driver", len(succ), 1)
 	// the reply collection must have completed before success (it lives in D0)
 	if D0 != T {
-		if ok, wit := successNeeds(D0, func(b *ssa.BasicBlock, i int) bool { return recvHdr != nil && b == recvHdr && i == 1 }); !ok {
+		if ok, wit := successNeeds(D0, exitEdge); !ok {
 			c.R.Fail(rule, Fn(T)+":replies", c.P.FuncPos(T), "the driver can report success although the collection of commit replies failed or did not complete", "success only past ["+Fn(D0)+" err == nil]", wit)
 		}
 	}
